@@ -245,8 +245,18 @@ def run_impl(case):
         for i, rows in enumerate(case['pkg']):
             if rows and all(r == {} or r == {'$obj': []} for r in rows):
                 res[i]['fields'] = []          # a table with no fields at all: its rows are empty dicts
+        plain = []
+
+        def tap(rows):
+            # every row as the stream step receives it, written by the same encoder without sort_keys
+            cur = []
+            plain.append(cur)
+            for row in rows:
+                cur.append(ejson.dumps(row, sort_keys=False, ensure_ascii=True))
+                yield row
+
         with quiet():
-            Flow(Src(res), DF.stream(f)).process()
+            Flow(Src(res), tap, DF.stream(f)).process()
             lines = open(f).read().split('\n')
             ds = Flow(DF.unstream(f)).datastream()
             got = [list(r) for r in ds.res_iter]
@@ -259,7 +269,7 @@ def run_impl(case):
                 if not l:
                     break
                 rl.append(l)
-        text = {'text': raw, 'readlines': rl} if len(raw) <= 2500 else {}
+        text = {'text': raw, 'readlines': rl, 'plain': plain} if len(raw) <= 2500 else {}
         return {'rows': [rows_enc(x) for x in got], 'names': [r['name'] for r in ds.dp.descriptor.get('resources', [])], **text,
                 'blank': [len(l.strip()) == 0 for l in lines[:-1]] if lines and lines[-1] == '' else [len(l.strip()) == 0 for l in lines]}
     d = os.path.join(scratch(), 'h_%s' % digest(case))
@@ -436,6 +446,11 @@ def coq_term(case, out):
             # the model's line splitting and joining against the real file and the real readline()
             ls = clist([cstr(l[:-1]) for l in out['readlines']])
             t += ' && list_eqb str_eqb (split_lines %s) %s && str_eqb (file_text %s) %s' % (cstr(out['text']), ls, ls, cstr(out['text']))
+            # stream.py's write(): every row line of the real file is the model's sorted text of the row the step received
+            cus = [[cjson(json.loads(p, object_pairs_hook=lambda kv: ('obj', kv))) for p in rs] for rs in out.get('plain', [])]
+            if 'plain' in out and all(c is not None for rs in cus for c in rs):
+                t += (' && list_eqb str_eqb (flat_map (fun rows : list json => (map sorted_text rows ++ [[]])%%list) %s) %s'
+                      % (clist([clist(rs) for rs in cus]), clist([cstr(l[:-1]) for l in out['readlines'][1:]])))
         return t
     if k == 'history' and not case['two'] and all('error' not in r for r in out['runs']) and not any(o.startswith('fail') for o in case['history']):
         h = clist(['HRun' if o == 'run' else 'HDelete' for o in case['history']])
